@@ -9,6 +9,8 @@ VERIF = os.path.dirname(os.path.abspath(__file__))
 
 FLAVOURS = {
     "plain": {"cxx": "g++", "flags": "-O1 -g -fno-omit-frame-pointer", "libs": "-lrapidcheck"},
+    # the fiber runtime with 272 fiber slots instead of 8: populations of hundreds of blocked waiters / participants
+    "crowd": {"cxx": "g++", "flags": "-O1 -g -fno-omit-frame-pointer -DVRT_MAXF=272", "libs": "-lrapidcheck"},
     "asan": {"cxx": "clang++", "flags": "-O1 -g -fno-omit-frame-pointer -fsanitize=address,undefined -fno-sanitize-recover=undefined",
              "libs": "-lrapidcheck",
              "env": {"ASAN_OPTIONS": "detect_leaks=0:abort_on_error=1:detect_stack_use_after_return=0:allocator_may_return_null=1",
@@ -49,6 +51,7 @@ PROPS = {
                 "reads, the scheduler flags deadlock, and a final acquisition flags leaked locks. Exploration within the generated bound.",
         "assumptions": ["vrt mutex model follows [thread.mutex]: non-recursive, no fairness, try_lock never fails spuriously", "programs bounded to 4 fibers x 4 (quick) / 6 (thorough) operations"],
         "stages": [{"family": "locks", "flavour": "plain", "target": "C20g", "cases": (150000, 2000000), "maxsec": (20, 200)},
+                   {"family": "locks", "flavour": "plain", "target": "C01p", "cases": (150000, 2000000), "maxsec": (20, 200)},
                    {"family": "locks", "flavour": "plain", "target": "C01", "cases": (400000, 6000000), "maxsec": (40, 400)}],
     },
     "C02": {
@@ -92,7 +95,8 @@ PROPS = {
         "text": "N in 2..5 participants run G in 1..4 generations with generated drop-outs, pauses and spurious wake-ups; each return from the g-th wait is checked against the number of participants "
                 "that belong to generation g, and a lost wake-up shows up as a scheduler-level deadlock. Exploration only.",
         "assumptions": ["participants that dropped never call the barrier again (class precondition)", "condition_variable model: notify with no waiter is lost, spurious wake-ups are generated"],
-        "stages": [{"family": "prims", "flavour": "plain", "target": "C09", "cases": (600000, 8000000), "maxsec": (40, 400)}],
+        "stages": [{"family": "prims", "flavour": "plain", "target": "C09", "cases": (600000, 8000000), "maxsec": (40, 400)},
+                   {"family": "prims", "flavour": "crowd", "target": "C09c", "cases": (1500, 30000), "maxsec": (40, 400)}],
     },
     "C10": {
         "level": "exploration",
@@ -101,7 +105,8 @@ PROPS = {
         "text": "Generated programs of arrivers, waiters and arrive_and_wait participants (count 1..4, total arrivals >= count) run under generated schedules with the waiter's unlocked fast path, the "
                 "arrival and spurious wake-ups interleaved at every visible step. Exploration only.",
         "assumptions": ["'after at least count arrive calls have taken place' is checked in its weakest sound form: that many arrive calls have started"],
-        "stages": [{"family": "prims", "flavour": "plain", "target": "C10", "cases": (800000, 10000000), "maxsec": (40, 400)}],
+        "stages": [{"family": "prims", "flavour": "plain", "target": "C10", "cases": (800000, 10000000), "maxsec": (40, 400)},
+                   {"family": "prims", "flavour": "crowd", "target": "C10c", "cases": (3000, 60000), "maxsec": (40, 400)}],
     },
     "C11": {
         "level": "exploration",
@@ -110,7 +115,8 @@ PROPS = {
         "text": "One controller issues generated activate/trigger/reset sequences checked call by call against a two-bit model; waiters snapshot the model at call time and their results are judged with "
                 "interval reasoning (abstaining when a controller call was in flight); lost wake-ups appear as deadlock. Exploration only.",
         "assumptions": ["single controller (racing activate calls are not generated)", "untimed waits are generated only when the controller's final state releases them"],
-        "stages": [{"family": "prims", "flavour": "plain", "target": "C11", "cases": (800000, 10000000), "maxsec": (40, 400)}],
+        "stages": [{"family": "prims", "flavour": "plain", "target": "C11", "cases": (800000, 10000000), "maxsec": (40, 400)},
+                   {"family": "prims", "flavour": "crowd", "target": "C11c", "cases": (3000, 60000), "maxsec": (40, 400)}],
     },
     "C16": {
         "level": "exploration",
@@ -182,7 +188,8 @@ PROPS = {
                 "construction/destruction imbalance of the payload is a violation. Exploration only.",
         "assumptions": ["list destroyed only after all handles are released (as the property states)"],
         "stages": [{"family": "rcu", "flavour": "plain", "target": "C13", "cases": (500000, 6000000), "maxsec": (40, 400)},
-                   {"family": "rcu", "flavour": "plain", "target": "C13f", "cases": (300000, 4000000), "maxsec": (30, 300)}],
+                   {"family": "rcu", "flavour": "plain", "target": "C13f", "cases": (300000, 4000000), "maxsec": (30, 300)},
+                   {"family": "rcu", "flavour": "plain", "target": "C12r", "cases": (100000, 1500000), "maxsec": (20, 200)}],
     },
     "C06": {
         "level": "exploration",
@@ -224,6 +231,7 @@ PROPS = {
         "assumptions": ["values from a small domain", "2-4 fibers x <= 6 operations"],
         "stages": [{"family": "atomicreg", "flavour": "plain", "target": "C20a", "cases": (150000, 2000000), "maxsec": (20, 200)},
                    {"family": "locks", "flavour": "plain", "target": "C15g", "cases": (300000, 4000000), "maxsec": (40, 400)},
+                   {"family": "locks", "flavour": "plain", "target": "C01p", "cases": (150000, 2000000), "maxsec": (20, 200)},
                    {"family": "deferred", "flavour": "plain", "target": "C15d", "cases": (300000, 4000000), "maxsec": (30, 300)},
                    {"family": "atomicreg", "flavour": "plain", "target": "C15as", "cases": (400000, 4000000), "maxsec": (20, 200)},
                    {"family": "atomicreg", "flavour": "plain", "target": "C15a", "cases": (400000, 6000000), "maxsec": (30, 300)},
